@@ -232,8 +232,9 @@ def endsInIf : Nat → S → Bool
   | 0, _ => false
   | fuel + 1, s =>
     match s with
-    | .ifS c t .absent => (match optStmt (sizeS s + 1) (.ifS c t .absent) with | .ifS _ _ _ => true | _ => false)
-    | .ifS _ _ e => endsInIf fuel e
+    | .ifS c t e =>
+      if isEmptyStmt e then (match optStmt (sizeS s + 1) (.ifS c t e) with | .ifS _ _ _ => true | _ => false)
+      else endsInIf fuel e
     | .block l => (match l.getLast? with | some s1 => endsInIf fuel s1 | none => false)
     | _ => false
 
